@@ -203,30 +203,76 @@ func (s State) Key() string {
 
 func (s State) String() string { return s.Key() }
 
-// Admit says what Add would return in this state, without changing anything.
-func (s State) Admit() ErrKind {
+// Quota is the admission-control part of a state: the current soft quota and
+// the current burst credit. (Exported, with the three rule functions below,
+// because the quota-tracker Deque of C06 obeys the same rules.)
+type Quota struct {
+	Soft   int
+	Credit float64
+}
+
+// AdmitAt says what adding to an open container holding n items returns.
+func (o Options) AdmitAt(n int, q Quota) ErrKind {
 	switch {
-	case s.Closed:
-		return ErrClosed // "with ErrQueueClosed after Close"
-	case s.Opt.Unlimited:
+	case o.Unlimited:
 		return OK
-	case len(s.Items) >= s.Opt.HardLimit:
+	case n >= o.HardLimit:
 		return ErrFull // "Adding items in excess of the hard limit will fail unconditionally."
-	case len(s.Items) >= s.Soft && s.Credit < 1:
+	case n >= q.Soft && q.Credit < 1:
 		return ErrNoCredit // "in excess of the soft quota ... not enough burst credit"
 	}
 	return OK
 }
 
+// AfterAdd is the quota after an admitted add to a container that held n items.
+func (o Options) AfterAdd(n int, q Quota) Quota {
+	if !o.Unlimited && n >= q.Soft {
+		// "Adding an item in excess of the soft quota costs 1 unit of burst
+		// credit" and "raises the soft quota" to the new length.
+		q.Credit--
+		q.Soft = n + 1
+	}
+	return q
+}
+
+// AfterRemove is the quota after a removal that left n items.
+func (o Options) AfterRemove(n int, q Quota) Quota {
+	if o.Unlimited || n >= q.Soft { // "if the resulting queue length is less than the current soft quota"
+		return q
+	}
+	below := n < q.Soft/2
+	if o.Rules.HalfQuotaExact {
+		below = 2*n < q.Soft
+	}
+	if q.Soft > 1 && below { // "below half the soft quota lowers the soft quota"
+		q.Soft--
+	}
+	// "Give credit for being below the soft quota ... after adjusting the
+	// quota": the fraction of the quota that is free.
+	q.Credit += float64(q.Soft-n) / float64(q.Soft)
+	limit := float64(o.HardLimit - q.Soft)
+	if o.Rules.CreditCapIsHardLimit {
+		limit = float64(o.HardLimit)
+	}
+	if q.Credit > limit {
+		q.Credit = limit
+	}
+	return q
+}
+
+// Admit says what Add would return in this state, without changing anything.
+func (s State) Admit() ErrKind {
+	if s.Closed {
+		return ErrClosed // "with ErrQueueClosed after Close"
+	}
+	return s.Opt.AdmitAt(len(s.Items), Quota{s.Soft, s.Credit})
+}
+
 // push appends v, applying the quota/credit rules. Precondition: Admit()==OK.
 func (s State) push(v int) State {
 	n := s.Clone()
-	if !n.Opt.Unlimited && len(n.Items) >= n.Soft {
-		// "Adding an item in excess of the soft quota costs 1 unit of burst
-		// credit" and "raises the soft quota" to the new length.
-		n.Credit--
-		n.Soft = len(n.Items) + 1
-	}
+	q := n.Opt.AfterAdd(len(n.Items), Quota{n.Soft, n.Credit})
+	n.Soft, n.Credit = q.Soft, q.Credit
 	n.Items = append(n.Items, v)
 	return n
 }
@@ -236,29 +282,8 @@ func (s State) pop() (State, int) {
 	n := s.Clone()
 	v := n.Items[0]
 	n.Items = n.Items[1:]
-	if n.Opt.Unlimited {
-		return n, v
-	}
-	l := len(n.Items)
-	if l < n.Soft { // "if the resulting queue length is less than the current soft quota"
-		below := l < n.Soft/2
-		if n.Opt.Rules.HalfQuotaExact {
-			below = 2*l < n.Soft
-		}
-		if n.Soft > 1 && below { // "below half the soft quota lowers the soft quota"
-			n.Soft--
-		}
-		// "Give credit for being below the soft quota ... after adjusting the
-		// quota": the fraction of the quota that is free.
-		n.Credit += float64(n.Soft-l) / float64(n.Soft)
-		limit := float64(n.Opt.HardLimit - n.Soft)
-		if n.Opt.Rules.CreditCapIsHardLimit {
-			limit = float64(n.Opt.HardLimit)
-		}
-		if n.Credit > limit {
-			n.Credit = limit
-		}
-	}
+	q := n.Opt.AfterRemove(len(n.Items), Quota{n.Soft, n.Credit})
+	n.Soft, n.Credit = q.Soft, q.Credit
 	return n, v
 }
 
